@@ -800,6 +800,12 @@ func (x *Exec) genericLoop(st *State, fr *Frame, node ast.Node, body []ast.Stmt,
 		it.ghosts["obsCancel"] = tFalse
 	}
 	d0 := decr(it)
+	stutterCheck := false
+	if fs, ok := node.(*ast.ForStmt); ok && fs.Cond != nil && len(maps) == 0 && len(ghosts) == 0 && (lc == nil || len(lc.Decr) == 0) {
+		if tv, ok := x.info.Types[fs.Cond]; !ok || tv.Value == nil {
+			stutterCheck = true
+		}
+	}
 	preserve := func(e *State) {
 		if unbounded {
 			oc, ok := e.ghosts["obsCancel"]
@@ -809,6 +815,20 @@ func (x *Exec) genericLoop(st *State, fr *Frame, node ast.Node, body []ast.Stmt,
 			x.oblige(e, "progress", fmt.Sprintf("loop%d:observes-cancel", ord), oc, node, "every iteration of an unbounded loop observes cancellation (select with a ctx.Done arm)")
 		}
 		checkInv(e, "inv-preserve")
+		if stutterCheck {
+			// a conditional loop over plain variables (no heap write, no channel operation, no
+			// decreases clause) must change at least one of them in every iteration: an iteration
+			// that leaves the state as it found it repeats forever
+			var changed []Term
+			for _, o := range vars {
+				a, ok1 := it.vars[o]
+				b, ok2 := e.vars[o]
+				if ok1 && ok2 && a.Sort == b.Sort {
+					changed = append(changed, tNot(tEq(a, b)))
+				}
+			}
+			x.oblige(e, "progress", fmt.Sprintf("loop%d:state-changes", ord), tOr(changed...), node, "an iteration of a conditional loop changes at least one of the variables it works on (otherwise it never ends)")
+		}
 		d1 := decr(e)
 		for i := range d0 {
 			if i < len(d1) {
